@@ -18,7 +18,13 @@ def _parse_kw(ex, st, args, n):
     ok = _parse_tuple(ex, st, [args[0], args[1]] + list(args[4:]), n, fmt_index=3)
     after = getattr(ex.contract, 'after_parse', None)
     if after is not None:
-        st.assume(z3.Implies(ok == 1, z3.And(*[g for _l, g in after(Ctx(ex, ex.args, ex.st0, st), st)])))
+        # (regions named valid here count as handed in by the caller: this frame's stack locals are disjoint from them)
+        prev, ex.collecting_regions = ex.collecting_regions, True
+        try:
+            facts = after(Ctx(ex, ex.args, ex.st0, st), st)
+        finally:
+            ex.collecting_regions = prev
+        st.assume(z3.Implies(ok == 1, z3.And(*[g for _l, g in facts])))
     return ok
 
 
